@@ -3,10 +3,25 @@
 //
 //	c11 run cases.ndjson obs.ndjson
 //	c11 probe 'expr' ...
+//
+// A case carries two token sequences of one expression tree (minimal and full
+// parenthesisation, both rendered by the TLA+ specification) and, for every
+// pair of adjacent tokens, whether the specification's NeedsGap says they must
+// be separated. The harness only joins tokens: under every uniform gap
+// decoration, under seeded per-gap mixes, and with one trailing junk token. It
+// compiles and evaluates each source text on model resource MR1 through the
+// public API and records what came back. It decides nothing.
 package main
 
 import (
+	"crypto/sha1"
+	"encoding/hex"
+	"encoding/json"
+	"hash/fnv"
+	"math/rand"
 	"os"
+	"runtime"
+	"strings"
 
 	"github.com/verily-src/fhirpath-go/fhirpath"
 	"github.com/verily-src/fhirpath-go/fhirpath/evalopts"
@@ -21,13 +36,244 @@ func envOpts() []fhirpath.EvaluateOption {
 	}
 }
 
-// slim drops the bulky parts of element items for display.
 func slim(o lib.Outcome) lib.Outcome { return o }
+
+// decorations: what is written into a gap between two tokens. "glue" writes
+// nothing where the specification allows it and one blank elsewhere.
+var uniform = []struct{ name, text string }{
+	{"glue", ""},
+	{"sp", " "},
+	{"nl", "\n"},
+	{"tab", "\t"},
+	{"bc", "/* c */"},
+	{"lc", "// c\n"},
+}
+
+// junk: one trailing token that can never continue an expression.
+var junk = []string{")", "]", "}", ",", "1", "true"}
+
+type caseRec struct {
+	ID         string   `json:"id"`
+	TokensMin  []string `json:"tokensMin"`
+	TokensFull []string `json:"tokensFull"`
+	GapsMin    []string `json:"gapsMin"`
+	GapsFull   []string `json:"gapsFull"`
+}
+
+// join writes the decoration chosen by gap between the tokens, as the
+// specification's gap classes allow: "ws" - an empty decoration becomes one
+// blank; "slash" - a comment gets a blank in front; "free" - as is.
+func join(tokens []string, classes []string, gap func(i int) string) string {
+	var b strings.Builder
+	for i, t := range tokens {
+		if i > 0 {
+			g := gap(i - 1)
+			switch classes[i-1] {
+			case "ws":
+				if g == "" {
+					g = " "
+				}
+			case "slash":
+				if strings.HasPrefix(g, "/") {
+					g = " " + g
+				}
+			case "free":
+			default:
+				lib.Fatal("unknown gap class %q", classes[i-1])
+			}
+			b.WriteString(g)
+		}
+		b.WriteString(t)
+	}
+	return b.String()
+}
+
+type variant struct {
+	R   string `json:"r"`   // rendering: "min" | "full"
+	D   string `json:"d"`   // decoration
+	Oh  string `json:"oh"`  // digest of the outcome (kind, items / panic site; never the message)
+	Str string `json:"str"` // "same": Expression.String() returned the source; "diff"; "none": did not compile
+}
+
+type junkObs struct {
+	R string `json:"r"`
+	J string `json:"j"`
+	K string `json:"k"` // "cerr" | "compiled" | "panic" | "timeout"
+}
+
+func digest(o lib.Outcome) string {
+	c := map[string]any{"k": o["k"]}
+	switch o["k"] {
+	case "ok":
+		c["items"] = o["items"]
+	case "panic":
+		c["site"] = o["site"]
+	}
+	b, err := json.Marshal(c)
+	if err != nil {
+		lib.Fatal("digest: %v", err)
+	}
+	h := sha1.Sum(b)
+	return "h" + hex.EncodeToString(h[:8])
+}
+
+// evalOne compiles and evaluates src; str reports Expression.String() against src.
+func evalOne(f *lib.Forest, src string, res []lib.Resource) (lib.Outcome, string) {
+	var out lib.Outcome
+	str := "none"
+	rep := lib.SafeRetry(func() {
+		out, str = nil, "none"
+		e, err := fhirpath.Compile(src)
+		if err != nil {
+			out = lib.ErrOutcome("cerr", err)
+			return
+		}
+		if e == nil {
+			out = lib.Outcome{"k": "cerr", "cls": []string{"NilExpression"}, "msg": "Compile returned nil, nil"}
+			return
+		}
+		if e.String() == src {
+			str = "same"
+		} else {
+			str = "diff"
+		}
+		c, err := e.Evaluate(res, envOpts()...)
+		if err != nil {
+			out = lib.ErrOutcome("err", err)
+			return
+		}
+		out = lib.OkOutcome(f.ProjectCollection(c))
+	})
+	if rep.Timeout {
+		return lib.TimeoutOutcome(), str
+	}
+	if rep.Panic != "" {
+		return lib.PanicOutcome(rep), str
+	}
+	return out, str
+}
+
+func compileOnly(src string) string {
+	k := "compiled"
+	rep := lib.SafeRetry(func() {
+		k = "compiled"
+		e, err := fhirpath.Compile(src)
+		if err != nil || e == nil {
+			k = "cerr"
+		}
+	})
+	if rep.Timeout {
+		return "timeout"
+	}
+	if rep.Panic != "" {
+		return "panic"
+	}
+	return k
+}
 
 func main() {
 	if len(os.Args) >= 2 && os.Args[1] == "probe" {
 		probe(os.Args[2:])
 		return
 	}
-	lib.Fatal("usage: c11 run cases.ndjson obs.ndjson | c11 probe expr...")
+	if len(os.Args) != 4 || os.Args[1] != "run" {
+		lib.Fatal("usage: c11 run cases.ndjson obs.ndjson | c11 probe expr...")
+	}
+	var raws []map[string]json.RawMessage
+	var cases []caseRec
+	if err := lib.ReadNDJSON(os.Args[2], func(b []byte) error {
+		var c caseRec
+		if err := json.Unmarshal(b, &c); err != nil {
+			return err
+		}
+		var raw map[string]json.RawMessage
+		if err := json.Unmarshal(b, &raw); err != nil {
+			return err
+		}
+		if len(c.TokensMin) == 0 || len(c.TokensFull) == 0 || len(c.GapsMin) != len(c.TokensMin)-1 || len(c.GapsFull) != len(c.TokensFull)-1 {
+			lib.Fatal("case %s: token/gap sequences inconsistent", c.ID)
+		}
+		cases = append(cases, c)
+		raws = append(raws, raw)
+		return nil
+	}); err != nil {
+		lib.Fatal("%v", err)
+	}
+	nmix := 1
+	if os.Getenv("VERIF_TIER") == "thorough" {
+		nmix = 3
+	}
+	seed := lib.Seed()
+	patient := lib.LoadModelResource("MR1")
+	forest, err := lib.NewForest(patient)
+	if err != nil {
+		lib.Fatal("%v", err)
+	}
+	res := lib.AsResources(patient)
+	w, err := lib.NewWriter(os.Args[3])
+	if err != nil {
+		lib.Fatal("%v", err)
+	}
+	lib.ParallelMap(len(cases), runtime.NumCPU(), func(i int) {
+		c := cases[i]
+		rec := map[string]any{}
+		for k, v := range raws[i] {
+			rec[k] = v
+		}
+		renderings := []struct {
+			name   string
+			tokens []string
+			needs  []string
+		}{{"min", c.TokensMin, c.GapsMin}, {"full", c.TokensFull, c.GapsFull}}
+		h := fnv.New64a()
+		h.Write([]byte(c.ID))
+		rng := rand.New(rand.NewSource(seed*1000003 + int64(h.Sum64()>>1)))
+		variants := []variant{}
+		outs := map[string]lib.Outcome{}
+		srcs := map[string]string{}
+		evals := 0
+		run := func(r, d, src string) {
+			out, str := evalOne(forest, src, res)
+			evals++
+			oh := digest(out)
+			if _, ok := outs[oh]; !ok {
+				outs[oh] = out
+				srcs[oh] = src
+			}
+			variants = append(variants, variant{R: r, D: d, Oh: oh, Str: str})
+			if str == "diff" {
+				srcs["strdiff"] = src
+			}
+		}
+		junks := []junkObs{}
+		for _, r := range renderings {
+			for _, u := range uniform {
+				run(r.name, u.name, join(r.tokens, r.needs, func(int) string { return u.text }))
+			}
+			// white space before the first and after the last token
+			run(r.name, "pad", " "+join(r.tokens, r.needs, func(int) string { return " " })+"\n")
+			for m := 0; m < nmix; m++ {
+				lead, trail := uniform[rng.Intn(len(uniform))].text, uniform[rng.Intn(len(uniform))].text
+				run(r.name, "mix", lead+join(r.tokens, r.needs, func(int) string { return uniform[rng.Intn(len(uniform))].text })+trail)
+			}
+			base := join(r.tokens, r.needs, func(int) string { return " " })
+			for _, j := range junk {
+				junks = append(junks, junkObs{R: r.name, J: j, K: compileOnly(base + " " + j)})
+				evals++
+			}
+		}
+		rec["variants"] = variants
+		rec["outs"] = outs
+		rec["srcs"] = srcs
+		rec["junk"] = junks
+		rec["src"] = join(c.TokensMin, c.GapsMin, func(int) string { return " " })
+		rec["out"] = outs[variants[0].Oh]
+		rec["evals"] = evals
+		if err := w.Write(rec); err != nil {
+			lib.Fatal("%v", err)
+		}
+	})
+	if err := w.Close(); err != nil {
+		lib.Fatal("%v", err)
+	}
 }
